@@ -1171,7 +1171,13 @@ extern void
 io_close(file_pair *pair, bool success)
 {
 	// Take care of sparseness at the end of the output file.
-	if (success && pair->dest_try_sparse
+	//
+	// If we are writing to standard output, this is done even if
+	// the operation wasn't successful: the output isn't removed on
+	// error, and the data that was decoded before the error must be
+	// the same no matter if the output is sparse or not.
+	if ((success || pair->dest_fd == STDOUT_FILENO)
+			&& pair->dest_try_sparse
 			&& pair->dest_pending_sparse > 0) {
 		// Seek forward one byte less than the size of the pending
 		// hole, then write one zero-byte. This way the file grows
